@@ -430,6 +430,9 @@ func (s *runtimeState) resolveIngress(r *http.Request, requestPath string) (stri
 	}
 
 	for _, rt := range s.routes {
+		if !ingressServesChannel(rt.ChannelType) {
+			continue
+		}
 		if !router.MatchPath(requestPath, rt.Path) {
 			continue
 		}
@@ -453,6 +456,14 @@ func (s *runtimeState) resolveIngress(r *http.Request, requestPath string) (stri
 	return "", false
 }
 
+// ingressServesChannel reports whether the ingress listener serves routes of the
+// given channel type. Outbound and internal routes are fed through the Admin
+// API / MCP only; they may not declare auth, so they must never be reachable
+// from ingress.
+func ingressServesChannel(ct config.ChannelType) bool {
+	return ct == config.ChannelDefault || ct == config.ChannelInbound
+}
+
 func (s *runtimeState) allowedMethodsFor(r *http.Request, requestPath string) []string {
 	if r == nil {
 		return nil
@@ -469,6 +480,9 @@ func (s *runtimeState) allowedMethodsFor(r *http.Request, requestPath string) []
 	var out []string
 
 	for _, rt := range s.routes {
+		if !ingressServesChannel(rt.ChannelType) {
+			continue
+		}
 		if !router.MatchPath(requestPath, rt.Path) {
 			continue
 		}
